@@ -108,16 +108,30 @@ impl Scheduler {
     }
 
     fn tick(thread: &mut Thread, execution: &mut Execution) -> VecDeque<QueuedSpawn> {
-        let mut queued_spawn = VecDeque::new();
+        // If the thread panics, the closures of threads that were spawned but
+        // not yet started must not be dropped: they may own loom objects,
+        // which cannot be dropped outside of the execution context. Leak them
+        // instead, like the stacks of the threads that did start.
+        struct LeakOnPanic(VecDeque<QueuedSpawn>);
+
+        impl Drop for LeakOnPanic {
+            fn drop(&mut self) {
+                if std::thread::panicking() {
+                    std::mem::forget(std::mem::take(&mut self.0));
+                }
+            }
+        }
+
+        let mut queued_spawn = LeakOnPanic(VecDeque::new());
         let state = RefCell::new(State {
             execution,
-            queued_spawn: &mut queued_spawn,
+            queued_spawn: &mut queued_spawn.0,
         });
 
         STATE.set(unsafe { transmute_lt(&state) }, || {
             thread.resume();
         });
-        queued_spawn
+        std::mem::take(&mut queued_spawn.0)
     }
 
     fn with_state<F, R>(f: F) -> R
